@@ -609,3 +609,89 @@ def validate_atoms(maxlen=3):
                     if len(bad) > 20:
                         return words, bad, al.n
     return words, bad, al.n
+
+
+# ---------------------------------------------------------------------------------- backtracking
+def _first_chars(items):
+    """(set of ASCII characters an item sequence can start with, can it match the empty string)"""
+    ascii_chars = [chr(i) for i in range(128)]
+    first, nullable = set(), True
+    for op, av in items:
+        f, n = _first_of(op, av, ascii_chars)
+        first |= f
+        if not n:
+            nullable = False
+            break
+    return first, nullable
+
+
+def _first_of(op, av, ascii_chars):
+    if op is sre_c.LITERAL:
+        return {chr(av)} if av < 128 else {"\u0080"}, False
+    if op is sre_c.NOT_LITERAL:
+        return {c for c in ascii_chars if ord(c) != av} | {"\u0080"}, False
+    if op is sre_c.ANY:
+        return set(ascii_chars) | {"\u0080"}, False
+    if op is sre_c.IN or op is sre_c.CATEGORY:
+        cs = _conv_class(av, False) if op is sre_c.IN else _CATS[av]
+        return {c for c in ascii_chars + ["\u0080"] if _cs_holds(cs, c if c != "\u0080" else "\u00e9")}, False
+    if op is sre_c.BRANCH:
+        f, n = set(), False
+        for b in av[1]:
+            f2, n2 = _first_chars(list(b))
+            f |= f2
+            n = n or n2
+        return f, n
+    if op is sre_c.SUBPATTERN:
+        return _first_chars(list(av[3]))
+    if op in (sre_c.MAX_REPEAT, sre_c.MIN_REPEAT):
+        lo, _hi, p = av
+        f, n = _first_chars(list(p))
+        return f, n or lo == 0
+    if op is sre_c.AT:
+        return set(), True
+    return set(ascii_chars), True
+
+
+def exponential_backtracking(pattern, flags=0):
+    """a (conservative) structural test for catastrophic backtracking: an unbounded repetition whose
+    body contains another unbounded repetition that is followed, inside the body, by something
+    that can be empty or can start with a character the inner repetition also accepts - then a
+    long run of such characters can be split between iterations in exponentially many ways.
+    -> description of the offending sub-pattern, or None"""
+    try:
+        tree = sre_p.parse(pattern, flags)
+    except Exception:
+        return None
+
+    def unbounded(op, av):
+        return op in (sre_c.MAX_REPEAT, sre_c.MIN_REPEAT) and av[1] is sre_c.MAXREPEAT
+
+    def visit(items, inside_unbounded):
+        items = list(items)
+        for i, (op, av) in enumerate(items):
+            if op in (sre_c.MAX_REPEAT, sre_c.MIN_REPEAT):
+                body = list(av[2])
+                if unbounded(op, av) and inside_unbounded is not None:
+                    # an unbounded repeat directly inside the body of an unbounded repeat
+                    tail_first, tail_nullable = _first_chars(items[i + 1 :])
+                    inner_first, _n = _first_chars(body)
+                    if tail_nullable or (tail_first & inner_first):
+                        return "nested unbounded repetition in %r" % pattern
+                r = visit(body, (op, av) if unbounded(op, av) else inside_unbounded)
+                if r:
+                    return r
+            elif op is sre_c.SUBPATTERN:
+                # a group is transparent: what follows the group inside the outer body counts as tail
+                sub = list(av[3])
+                r = visit(sub + items[i + 1 :], inside_unbounded) if inside_unbounded is not None else visit(sub, None)
+                if r:
+                    return r
+            elif op is sre_c.BRANCH:
+                for b in av[1]:
+                    r = visit(list(b) + (items[i + 1 :] if inside_unbounded is not None else []), inside_unbounded)
+                    if r:
+                        return r
+        return None
+
+    return visit(list(tree), None)
